@@ -539,11 +539,45 @@ func suiteC08(s *Shard, n int) {
 			}
 			if r.Chance(30) {
 				vb := ivg.ViewBox{MinX: r.F32(), MinY: r.F32(), MaxX: r.F32(), MaxY: r.F32()}
+				if r.Chance(30) {
+					// zeros of either sign, also all four (Min = Max is a valid, empty viewBox)
+					z := func() float32 { return []float32{0, bits(0x80000000), 0, 1}[r.Intn(4)] }
+					vb = ivg.ViewBox{MinX: -z(), MinY: -z(), MaxX: z(), MaxY: z()}
+					if r.Bool() {
+						vb = ivg.ViewBox{MinX: z() - 1 + 1, MinY: bits(0x80000000), MaxX: 0, MaxY: 0}
+					}
+				}
 				cs = append([]Call{{Name: "reset", VB: vb, Pal: ivg.DefaultPalette}}, cs...)
 			}
 			line := EncCase(cs)
 			obs := s.EmitRun(line)
 			s.Sig("enc:" + fmt.Sprint(len(obs)))
+			if cs[0].Name == "reset" && WellFormedClosed(destCalls(cs)) {
+				// the viewBox numbers are read the same through every decoding entry point: with options, without, metadata only
+				// (round 5, C08-J: Decode with options took an all-zero viewBox for "unset")
+				var e encode.Encoder
+				for _, c := range cs {
+					if c.IsDest() {
+						c.Apply(&e)
+					}
+				}
+				if b, err := e.Bytes(); err == nil {
+					b = append([]byte(nil), b...)
+					c1, e1, _ := Decode(nil, b)
+					c2, e2, _ := Decode([]DecOpt{{Index: 3, Col: color.RGBA{1, 2, 3, 255}}}, b)
+					vb3, e3 := decode.DecodeViewBox(b)
+					if e1 == nil && e2 == nil && e3 == nil && len(c1) > 0 && len(c2) > 0 {
+						bitsOf := func(v ivg.ViewBox) [4]uint32 {
+							return [4]uint32{math.Float32bits(v.MinX), math.Float32bits(v.MinY), math.Float32bits(v.MaxX), math.Float32bits(v.MaxY)}
+						}
+						if bitsOf(c1[0].VB) != bitsOf(c2[0].VB) || bitsOf(c1[0].VB) != bitsOf(vb3) {
+							s.Fail("C08.viewbox-same-by-every-entry", line, fmt.Sprintf("viewBox decoded as %v by Decode, %v by Decode with an option, %v by DecodeViewBox", c1[0].VB, c2[0].VB, vb3))
+						}
+					} else if (e1 == nil) != (e2 == nil) || (e1 == nil) != (e3 == nil) {
+						s.Fail("C08.viewbox-same-by-every-entry", line, fmt.Sprintf("Decode: %v, with an option: %v, DecodeViewBox: %v", e1, e2, e3))
+					}
+				}
+			}
 			for _, f := range monitorRoundTrip(line, cs) {
 				s.Fail(strings.Replace(f.Clause, "C01", "C08", 1), f.Case, f.Detail)
 			}
@@ -741,6 +775,19 @@ func suiteC09(s *Shard, n int) {
 			}
 		case 1: // suggested palettes
 			cs := []Call{{Name: "reset", VB: ivg.DefaultViewBox, Pal: r.Palette()}}
+			if r.Chance(40) {
+				// one Encoder, several graphics: the same palette again under another viewBox, another palette, the first again
+				// (round 5, C09-J: the encoded palette chunk of the previous graphic kept by reference and overwritten while the
+				// next viewBox chunk was built)
+				pals := [][64]color.RGBA{cs[0].Pal, r.Palette()}
+				for k := 1 + r.Intn(3); k > 0; k-- {
+					vb := ivg.DefaultViewBox
+					if r.Chance(70) {
+						vb = ivg.ViewBox{MinX: float32(r.Intn(64) - 64), MinY: float32(r.Intn(64) - 64), MaxX: float32(r.Intn(64)), MaxY: float32(1 + r.Intn(64))}
+					}
+					cs = append(cs, Call{Name: "reset", VB: vb, Pal: pals[r.Intn(4)/3]})
+				}
+			}
 			line := EncCase(cs)
 			obs := s.EmitRun(line)
 			s.Sig("pal:" + fmt.Sprint(len(obs)))
@@ -2374,8 +2421,19 @@ func runGenInto(dst ivg.Destination, ops []GenOp, sels *[][2]uint8) (errs []stri
 			panicked = fmt.Sprint(p)
 		}
 	}()
-	g := &generate.Generator{}
+	return runGenWith(&generate.Generator{}, dst, ops, sels)
+}
+
+// runGenWith: the same with a Generator the caller owns (one Generator pointed at one destination after another, as the
+// repository's own ivg_test.go does: SetDestination, and the path transform cleared with SetTransform()).
+func runGenWith(g *generate.Generator, dst ivg.Destination, ops []GenOp, sels *[][2]uint8) (errs []string, panicked string) {
+	defer func() {
+		if p := recover(); p != nil {
+			panicked = fmt.Sprint(p)
+		}
+	}()
 	g.SetDestination(dst)
+	g.SetTransform()
 	for _, o := range ops {
 		errs = append(errs, ApplyGen(g, o))
 		*sels = append(*sels, [2]uint8{dst.CSel(), dst.NSel()})
@@ -2415,12 +2473,18 @@ func monitorC07(line string, ops []GenOp, s *Shard) (fails []Failure) {
 			ops1[i].Call.F = f
 		}
 	}
-	errs1, p1 := runGenInto(&z1, ops1, &sel1)
+	// every other case ONE Generator serves both pipelines, re-pointed in between (round 5, C07-J: a Generator that
+	// remembered, across SetDestination, which gradient transform it had stored last and skipped storing it again)
+	gen1, gen2 := &generate.Generator{}, &generate.Generator{}
+	if len(line)%2 == 0 {
+		gen2 = gen1
+	}
+	errs1, p1 := runGenWith(gen1, &z1, ops1, &sel1)
 	// pipeline 2: Generator -> Encoder -> Decoder -> Renderer
 	var e encode.Encoder
 	e.HighResolutionCoordinates = true
 	var sel2 [][2]uint8
-	errs2, p2 := runGenInto(&hiResEncoder{&e}, all, &sel2)
+	errs2, p2 := runGenWith(gen2, &hiResEncoder{&e}, all, &sel2)
 	if p1 != "" || p2 != "" {
 		return []Failure{{"C07.no-panic", line, p1 + p2}}
 	}
